@@ -49,7 +49,7 @@ def case(draw, tier):
     tbl = draw(gen.table(H, [kc, kc, vc, None], max_rows=maxrows, ragged=ragged, id_col=3, extra=st.integers(0, 3)))
     keyforms = ["k", 0, ("k", "j"), ["j", "k"], ("k",)]
     if op in ("mergeduplicates", "merge"):
-        keyforms = ["k", ("k", "j"), ("k",)]
+        keyforms = ["k", ("k", "j"), ("k",), ("j", "k"), ["j", "k"]]
     if op in ("agg_len", "agg_list", "agg_multi", "rowreduce", "fold"):
         keyforms = keyforms + ["callable"]
     if op == "gcdv":
